@@ -104,6 +104,20 @@ func c10HostForms(keys []string, tval any) []c10Host {
 		return c10Layer(a, t)
 	}})
 	hs = append(hs, c10Host{"[0,{$replace}]", []any{0, map[string]any{"$replace": sp}}, ident})
+	// a map host with local keys that happens to be a list entry is a host, not the list's marker
+	entryLocal := func(wrap func(e any) any) func(t any) (any, error) {
+		return func(t any) (any, error) {
+			e, err := c10Layer(map[string]any{"z": 9}, t)
+			if err != nil {
+				return nil, err
+			}
+			return wrap(e), nil
+		}
+	}
+	hs = append(hs, c10Host{"[0,{$merge,local}]", []any{0, map[string]any{"$merge": sp, "z": 9}}, entryLocal(func(e any) any { return []any{0, e} })})
+	hs = append(hs, c10Host{"[{$merge,local}]", []any{map[string]any{"$merge": sp, "z": 9}}, entryLocal(func(e any) any { return []any{e} })})
+	hs = append(hs, c10Host{"[{$merge,local},{x:1}]", []any{map[string]any{"$merge": sp, "z": 9}, map[string]any{"x": 1}}, entryLocal(func(e any) any { return []any{e, map[string]any{"x": 1}} })})
+	hs = append(hs, c10Host{"[0,{$replace,local}]", []any{0, map[string]any{"$replace": sp, "z": 9}}, func(t any) (any, error) { return []any{0, core.Clone(t)}, nil }})
 	return hs
 }
 
